@@ -9,6 +9,27 @@ ROOT = os.path.dirname(os.path.dirname(os.path.abspath(__file__)))
 
 # id -> (level, technique, text, note, design_ref)
 CHECKS = {
+    "C07": (
+        "exploration",
+        "deterministic simulation used as the offline path through the real wire encoders (redis-py RESP2, aiormq/pamqp over fragmented simulated TCP) with a pinned clock; seeded structured inputs and configurations",
+        "Seeded argument values (nested JSON, unicode, big ints, subnormal floats, dataclasses, pydantic models, dates, durations), "
+        "valid names/ids from the validators' alphabets, all priorities, combinations of optional job settings, inline vs bucket "
+        "transport (in-memory and Redis buckets) on all three brokers: consume() == enqueue() tuple field by field, resolved "
+        "payload and actor arguments == independently normalised arguments under both converters; codec mode: decode(encode(x)) == "
+        "x for all parameter/bucket classes with durations up to 100 years at microsecond precision, Redis names unambiguous.",
+        "The schedule dimension is nearly trivial here (said in the rule text): this is mostly input generation, with the simulator providing the Redis/RabbitMQ wire paths, stream fragmentation and the clock. Seeded generator instead of Hypothesis.",
+        "DESIGN.md section 8 C07",
+    ),
+    "C18": (
+        "exploration",
+        "deterministic simulation, reference evaluation: seeded dependency DAGs with sync (executor seam) and async delayed providers, overrides between deliveries, failing providers",
+        "Seeded acyclic provider graphs (2-8 nodes, shared sub-dependencies, MessageDependency leaves, defaults), an actor using "
+        "1-3 of them with payload arguments under Basic/Pydantic converters, 1-4 deliveries with Depends.override() in between and "
+        "failing providers. Actor kwargs == payload + reference values under the overrides in force, provider call counts == use "
+        "sites, a failing provider prevents the actor run and gives the failure disposition, invalid declarations raise ValueError.",
+        "In-memory broker only (dependency resolution is broker-independent). Seeded generator instead of Hypothesis.",
+        "DESIGN.md section 8 C18",
+    ),
     "C16": (
         "exploration",
         "deterministic simulation, model-based: seeded call sequences on message handles of every category and retry state with one injected broker-call failure; reference handle state machine; recorder counts broker calls",
